@@ -789,13 +789,7 @@ impl<'de> VariantAccess<'de> for VariantDeserializer {
 		V: serde::de::Visitor<'de>,
 	{
 		match self.value {
-			Some(Value::Array(v)) => {
-				if v.is_empty() {
-					visitor.visit_unit()
-				} else {
-					visit_array(v, visitor)
-				}
-			}
+			Some(Value::Array(v)) => visit_array(v, visitor),
 			Some(other) => Err(serde::de::Error::invalid_type(
 				other.unexpected(),
 				&"tuple variant",
